@@ -69,6 +69,14 @@ fn main() {
         std::process::exit(2);
     }
     let defs = registry();
+    // glibc trims the heap top whenever more than 128 KiB are free there; with the 32-330 KiB objects of
+    // this library allocated and freed per run that is a brk()/page-fault storm (20x slowdown measured).
+    #[cfg(not(miri))]
+    unsafe {
+        libc::mallopt(libc::M_TRIM_THRESHOLD, 1 << 30);
+        libc::mallopt(libc::M_TOP_PAD, 64 << 20);
+        libc::mallopt(libc::M_MMAP_THRESHOLD, 256 << 20);
+    }
     match args[1].as_str() {
         "list" => {
             for d in &defs {
